@@ -146,6 +146,7 @@ type Case struct {
 	Prior             []PriorReq `json:",omitempty"` // requests served by the same app (pooled ctx) before the main one
 	Override          []string   `json:",omitempty"` // built-in constraint names under which the app registered a custom constraint of its own
 	Fillers           int        `json:",omitempty"` // mounted: the sub-app first registers this many other custom constraints and a route that uses one of them; the root app has a custom constraint of its own
+	AfterNext         bool       `json:",omitempty"` // Use only: the handler calls Next and reads its parameters again afterwards; a route of another method matches the path
 	Decoy             bool       `json:",omitempty"` // a near-twin of the pattern (constraint data in the other letter case) is registered directly in front of it, with a handler that calls Next
 	Mounted           bool       `json:",omitempty"` // the pattern and the custom constraints are registered on a sub-app that is mounted at "/" of a plain root app
 }
@@ -291,7 +292,8 @@ func check(c Case) vk.Verdict {
 		app.RegisterCustomConstraint(overrideC{n})
 	}
 	hit := 0
-	var got []string
+	var got, after []string
+	afterSet := false
 	var gotPath, routePath string
 	h := func(ctx fiber.Ctx) error {
 		hit++
@@ -301,6 +303,17 @@ func check(c Case) vk.Verdict {
 		}
 		gotPath = strings.Clone(ctx.Path())
 		routePath = ctx.Route().Path
+		if c.Use && c.AfterNext {
+			// a middleware that looks at its parameters again when the rest of the chain is done (no later route of the
+			// method matches here; one of another method does, so the answer is 405)
+			err := ctx.Next()
+			after = after[:0]
+			for _, n := range ctx.Route().Params {
+				after = append(after, strings.Clone(ctx.Params(n)))
+			}
+			afterSet = true
+			return err
+		}
 		return nil
 	}
 	func() {
@@ -331,6 +344,9 @@ func check(c Case) vk.Verdict {
 	if hit == -1 {
 		return vk.Failf("registering the documented-syntax pattern %q panicked", c.Pattern)
 	}
+	if c.Use && c.AfterNext {
+		app.Post("/:vkA/:vkB?/:vkC?/*", func(fiber.Ctx) error { return nil }) // another method's route that matches almost anything
+	}
 	if c.Mounted {
 		root.Use("/", app)
 		app = root
@@ -346,7 +362,7 @@ func check(c Case) vk.Verdict {
 				continue
 			}
 		}
-		hit = 0
+		hit, afterSet = 0, false
 		v := func() vk.Verdict {
 			resp := vk.Do(app, "GET", c.Path)
 			status := resp.Response.StatusCode()
@@ -376,6 +392,9 @@ func check(c Case) vk.Verdict {
 				return v
 			}
 			v.Classes = append(v.Classes, "ran")
+			if afterSet && strings.Join(after, "\x00") != strings.Join(got, "\x00") {
+				return vk.Failf("%s: the middleware read its parameters as %q, and after Next() returned (no later route of the method matched) as %q", ctx, got, after)
+			}
 			if hit > 1 {
 				return vk.Failf("%s: handler ran %d times", ctx, hit)
 			}
@@ -587,6 +606,7 @@ func genCase(t *rapid.T) Case {
 		c.Override = rapid.SliceOfNDistinct(rapid.SampledFrom([]string{"int", "bool", "alpha"}), 1, 2, rapid.ID[string]).Draw(t, "overridden")
 	}
 	c.Decoy = rapid.IntRange(0, 2).Draw(t, "decoy") == 0
+	c.AfterNext = c.Use && rapid.Bool().Draw(t, "afternext")
 	c.Mounted = rapid.IntRange(0, 4).Draw(t, "mounted") == 0
 	if c.Mounted {
 		c.Fillers = rapid.SampledFrom([]int{0, 0, 1, 2, 3, 5, 6}).Draw(t, "fillers")
